@@ -254,8 +254,7 @@ impl<'a> Interp<'a> {
         let mut m = serde_json::Map::new();
         for inner in items {
             if let Kind::Literal(_) = inner.kind {
-                // reported through the map item: no span of its own
-                errors.push(leaf(LeafKind::LiteralItem, Where::Item(it.id), ""));
+                errors.push(leaf(LeafKind::LiteralItem, Where::Item(inner.id), ""));
                 continue;
             }
             let key = path_string(&inner.name);
